@@ -111,6 +111,9 @@ type PipeObs struct {
 	MainDone   bool
 	MainDoneAt time.Duration
 	SignalAt   time.Duration
+	// StallAfterSignal: injected stall time (all tasks) between the signal and the end of the run
+	StallAfterSignal time.Duration
+	stallAtSignal    time.Duration
 	Signaled   bool
 	Stop       string
 	Steps      uint64
@@ -264,8 +267,12 @@ func finalizePipeFrom(p *PipePlan, init model.TplCache) []model.TplCache {
 				exp := model.Expect(d.Abs, ex.Addr, cache.Clone(), im, len(d.payload))
 				d.expFlow = exp
 				for _, s := range d.Abs.Sets {
-					if s.Kind == model.SetData {
-						k := model.CacheKey(ex.Addr, s.TplID)
+					if s.Kind == model.SetData || (s.Kind == model.SetRaw && s.RawID > 255) {
+						id := s.TplID
+						if s.Kind == model.SetRaw {
+							id = s.RawID
+						}
+						k := model.CacheKey(ex.Addr, id)
 						for _, j := range announced[k] {
 							if j != i {
 								d.ambiguous = true
@@ -382,6 +389,22 @@ func encodeFlowInOrder(d *Delivery, addr []byte, cache model.TplCache) []byte {
 	return b
 }
 
+// droppable: losing this delivery at the socket changes nothing the model
+// relies on later (clean, data only).
+func droppable(p *PipePlan, d *Delivery) bool {
+	if d.Probe || d.BadHeader || d.Raw != nil || len(d.Mut) > 0 || p.Exporters[d.Exporter].Hostile {
+		return false
+	}
+	if d.Abs != nil {
+		for _, s := range d.Abs.Sets {
+			if s.Kind != model.SetData && s.Kind != model.SetRaw {
+				return false
+			}
+		}
+	}
+	return true
+}
+
 func srcAddr(ex *ExporterPlan) *net.UDPAddr {
 	ip := make(net.IP, len(ex.Addr), len(ex.Addr)+map[bool]int{false: 0, true: 8}[ex.SpareCap])
 	copy(ip, ex.Addr)
@@ -398,6 +421,7 @@ func runPipe(p *PipePlan, ch *simrt.Choices, trace bool, adopt map[string][]byte
 	c := &p.Cfg
 	sim.TraceOn = trace
 	sim.StallProb = c.StallProb
+	sim.StallFilter = c.StallFilter
 	if c.StallMaxMs > 0 {
 		sim.StallMax = time.Duration(c.StallMaxMs) * time.Millisecond
 	}
@@ -499,6 +523,16 @@ func runPipe(p *PipePlan, ch *simrt.Choices, trace bool, adopt map[string][]byte
 				}
 				ex := &p.Exporters[d.Exporter]
 				ok := sim.Net.Deliver(port, simrt.Dgram{ID: d.ID, Src: srcAddr(ex), Data: d.payload})
+				if !ok && !droppable(p, d) {
+					// the receive queue is full: a datagram that carries state the
+					// model relies on (templates), a probe or a datagram with an
+					// exact expectation of its own is sent again until it fits -
+					// plain data datagrams are simply lost (not received)
+					for tries := 0; !ok && tries < 5000 && sim.Net.Sock(port) != nil; tries++ {
+						simrt.Sleep(100 * time.Microsecond)
+						ok = sim.Net.Deliver(port, simrt.Dgram{ID: d.ID, Src: srcAddr(ex), Data: d.payload})
+					}
+				}
 				obs.DeliveredAt[d.ID] = sim.Now()
 				obs.DeliveredSeq[d.ID] = sim.Seq
 				_ = ok
@@ -528,6 +562,7 @@ func runPipe(p *PipePlan, ch *simrt.Choices, trace bool, adopt map[string][]byte
 				sg = syscall.SIGINT
 			}
 			obs.SignalAt = sim.Now()
+			obs.stallAtSignal = sim.StallTotal
 			obs.Signaled = true
 			sim.Signal(sg)
 			simrt.Yield(-22)
@@ -647,6 +682,9 @@ func runPipe(p *PipePlan, ch *simrt.Choices, trace bool, adopt map[string][]byte
 	obs.SimTime = sim.Now()
 	obs.Stats = sim.Stats
 	obs.Exited, obs.ExitCode, obs.ExitAt = sim.Exited, sim.ExitCode, sim.ExitAt
+	if obs.Signaled {
+		obs.StallAfterSignal = sim.StallTotal - obs.stallAtSignal
+	}
 	obs.MainDone, obs.MainDoneAt = sim.MainDone, sim.MainDoneAt
 	if t := sim.Panicked; t != nil {
 		obs.PanicTask = t.Name
